@@ -1003,6 +1003,8 @@ func refCanonical(s []byte, k int) []string {
 
 func sequtilRound4_12(c *Ctx) {
 	canonReusedIterator(c)
+	canonLongBufferReused(c)
+	rcHugeInvalid(c)
 	// k around the machine-word boundaries, on pure upper-case ACGT and on mixed input
 	for _, k := range []int{15, 16, 17, 31, 32, 33, 63, 64, 65} {
 		for i := 0; i < c.n(6); i++ {
@@ -1067,6 +1069,121 @@ func canonReusedIterator(c *Ctx) {
 			oracle = "ranging again over the same iterator value after the sequence buffer was refilled: items are not the canonical k-mers of the buffer's current content"
 		}
 		c.add(Case{Kind: "canon-iterator-reused", Nontrivial: true, Oracle: oracle, Note: fmt.Sprintf("CanonicalSubsequences(buf, %d) ranged, buf (%d bases) overwritten in place, ranged again", k, n)})
+	}
+}
+
+// canonLongBufferReused (round 7): a LONG sequence buffer (>= 1024 bases) traversed by a fresh call, edited in
+// place (one base, then refilled at the same length), and traversed again by another fresh call: every call
+// must yield the canonical k-mers of the buffer's content at the time of that call.
+func canonLongBufferReused(c *Ctx) {
+	for i := 0; i < c.n(4); i++ {
+		n := []int{1024, 1500, 4096, 5000}[i%4]
+		k := []int{3, 11, 21, 32}[c.rng.Intn(4)]
+		buf := c.bytesFrom([]byte("ACGT"), n)
+		run := func() (string, string) {
+			var got []string
+			st := safe(func() string {
+				for x := range sequtil.CanonicalSubsequences(buf, k) {
+					got = append(got, hx(x))
+				}
+				return ""
+			})
+			return st, strings.Join(got, ",")
+		}
+		oracle := ""
+		for round := 0; round < 4 && oracle == ""; round++ {
+			switch round {
+			case 1:
+				p := c.rng.Intn(n)
+				buf[p] = "ACGT"[(strings.IndexByte("ACGT", buf[p])+1)%4]
+			case 2:
+				copy(buf, c.bytesFrom([]byte("ACGT"), n))
+			case 3:
+				buf = buf[:n-7]
+			}
+			st, got := run()
+			if st == "PANIC" {
+				oracle = "CanonicalSubsequences panicked on a long sequence"
+			} else if got != strings.Join(refCanonical(buf, k), ",") {
+				oracle = fmt.Sprintf("call %d on the same %d-base buffer (edited in place between calls): items are not the canonical %d-mers of the buffer's current content", round+1, len(buf), k)
+			}
+		}
+		c.add(Case{Kind: "canon-long-buffer-reused", Nontrivial: true, Oracle: oracle, Note: fmt.Sprintf("CanonicalSubsequences(buf, %d) on a %d-base buffer: traversed, one base edited in place, traversed, refilled, traversed, shortened, traversed", k, n)})
+	}
+}
+
+// rcHugeInvalid (round 7): ReverseComplement of >= 1 MiB: valid input equals the reference; one invalid byte
+// -- at position 0, at the end, around every power-of-two boundary -- must make it panic.
+func rcHugeInvalid(c *Ctx) {
+	n := 1<<20 + 37
+	src := c.bytesFrom([]byte("ACGTacgtNn"), n)
+	comp := func(b byte) byte {
+		return "TGCAtgcaNn"[strings.IndexByte("ACGTacgtNn", b)]
+	}
+	want := make([]byte, n)
+	for i, b := range src {
+		want[n-1-i] = comp(b)
+	}
+	var got []byte
+	st := safe(func() string { got = sequtil.ReverseComplement(nil, src); return "" })
+	oracle := ""
+	if st == "PANIC" || !bytes.Equal(got, want) {
+		oracle = fmt.Sprintf("ReverseComplement of a valid %d-base sequence is wrong", n)
+	}
+	c.add(Case{Kind: "rc-huge", Nontrivial: true, Oracle: oracle, Note: fmt.Sprintf("ReverseComplement(nil, %d valid bases)", n)})
+	pos := []int{0, 1, n - 1, n - 2, n / 2, 1 << 19, 1<<19 - 1, 1 << 18, 1 << 16, 1<<20 - 1, 1 << 20, 4095, 4096}
+	for _, p := range pos {
+		for _, bad := range []byte{'X', 0x00, 0xff} {
+			old := src[p]
+			src[p] = bad
+			st := safe(func() string { sequtil.ReverseComplement(nil, src); return "" })
+			src[p] = old
+			oracle := ""
+			if st != "PANIC" {
+				oracle = fmt.Sprintf("ReverseComplement of %d bases with the invalid byte %#x at position %d does not panic", n, bad, p)
+			}
+			c.add(Case{Kind: "rc-huge-invalid", Nontrivial: true, Oracle: oracle, Note: fmt.Sprintf("ReverseComplement(nil, %d bases, byte %#x at %d)", n, bad, p)})
+		}
+	}
+}
+
+// from2bitWordsAndPrefixes (round 7): packed inputs of >= 8 bytes made of repeated 8-byte words (all zero first,
+// repeated non-zero words, a zero word later) appended to dst prefixes of 0..100 bytes of non-base text.
+func from2bitWordsAndPrefixes(c *Ctx) {
+	words := [][]byte{bytes.Repeat([]byte{0}, 8), bytes.Repeat([]byte{0xff}, 8), {0x1b, 0x1b, 0x1b, 0x1b, 0x1b, 0x1b, 0x1b, 0x1b}, {1, 2, 3, 4, 5, 6, 7, 8}}
+	for _, pl := range []int{0, 1, 31, 32, 33, 40, 64, 100} {
+		for wi, w0 := range words {
+			for _, shape := range []int{0, 1, 2, 3} {
+				var p []byte
+				switch shape {
+				case 0:
+					p = bytes.Repeat(w0, 3)
+				case 1:
+					p = append(append(append([]byte(nil), w0...), words[(wi+1)%4]...), w0...)
+				case 2:
+					p = append(append(append([]byte(nil), words[(wi+1)%4]...), w0...), w0...)
+				case 3:
+					p = append(append([]byte(nil), w0...), 0x6c, 0x00, 0x00)
+				}
+				pre := c.bytesFrom([]byte(">read_12 xyzGTCgtc\n"), pl)
+				arena := make([]byte, pl, pl+[]int{0, 7, 4 * len(p), 8 * len(p)}[c.rng.Intn(4)])
+				copy(arena, pre)
+				got := safe(func() string { return hx(sequtil.DNAFrom2Bit(arena, p)) })
+				want := append([]byte(nil), pre...)
+				for _, b := range p {
+					want = append(want, "ACGT"[b>>6&3], "ACGT"[b>>4&3], "ACGT"[b>>2&3], "ACGT"[b&3])
+				}
+				oracle := ""
+				if got != hx(want) {
+					oracle = fmt.Sprintf("DNAFrom2Bit of %d packed bytes (8-byte words % x…) appended to a %d-byte prefix is wrong", len(p), p[:8], pl)
+				}
+				cs := Case{Kind: "from2bit-words-prefix", Nontrivial: true, Oracle: oracle, Note: fmt.Sprintf("DNAFrom2Bit(%d-byte prefix %q…, % x…) %d bytes", pl, trunc(string(pre), 12), p[:8], len(p))}
+				if pl <= 40 {
+					cs.Op, cs.Impl = "su.from2bit "+hx(pre)+" "+hx(p), strings.Replace(got, "PANIC", "P", 1)
+				}
+				c.add(cs)
+			}
+		}
 	}
 }
 
@@ -1357,6 +1474,105 @@ func alignRound4(c *Ctx, prop string) {
 			oracle = fmt.Sprintf("Local on 1100x1097 bases (gap-open -2, mismatch -10): returned score %v, its steps score %v", lsc, sc)
 		}
 		c.add(Case{Kind: "big-adjacent-gap-runs", Nontrivial: true, Oracle: oracle, Note: "align.Global/Local on 1100-base sequences differing by substitutions, match 3 / mismatch -10 / gap -1 / gap-open -2"})
+	}
+	// (1c) round 7: big tables (> 2^20 cells, square and 300000 x 4) with non-zero gap-open whose best alignment
+	// BEGINS or ENDS with a run of deletions / insertions: the steps must re-score to the returned score
+	if prop == "C08" || prop == "C10" {
+		for vi, variant := range []string{"leading deletions", "leading insertions", "trailing deletions", "tall narrow table, leading deletions"} {
+			for _, open := range []float64{-2, 1} {
+				m := align.SubstitutionMatrix{}
+				for _, x := range []byte("acgt") {
+					for _, y := range []byte("acgt") {
+						m[[2]byte{x, y}] = -10
+					}
+					m[[2]byte{x, x}] = 3
+					m[[2]byte{x, align.Gap}] = -1
+					m[[2]byte{align.Gap, x}] = -1
+				}
+				m[[2]byte{align.Gap, align.Gap}] = open
+				s := c.bytesFrom([]byte("acgt"), 1060)
+				x := c.bytesFrom([]byte("acgt"), 45)
+				var a, b []byte
+				switch vi {
+				case 0:
+					a, b = append(append([]byte(nil), x...), s...), s
+				case 1:
+					a, b = s, append(append([]byte(nil), x...), s...)
+				case 2:
+					a, b = append(append([]byte(nil), s...), x...), s
+				case 3:
+					a, b = c.bytesFrom([]byte("acgt"), 300004), []byte("acgt")
+				}
+				var gs []align.Step
+				var gsc float64
+				res := safe(func() string { gs, gsc = align.Global(a, b, m); return "" })
+				oracle := ""
+				if res == "PANIC" {
+					oracle = "Global panicked on a big table"
+				} else if sc, ai, bi, ok := rescore(m, a, b, gs); !ok || ai != len(a) || bi != len(b) || sc != gsc {
+					oracle = fmt.Sprintf("Global on %dx%d bases (%s, gap-open %v): returned score %v, its steps score %v", len(a), len(b), variant, open, gsc, sc)
+				}
+				c.add(Case{Kind: "big-table-edge-gap-runs", Nontrivial: true, Oracle: oracle, Note: fmt.Sprintf("align.Global on %dx%d bases, %s, match 3 / mismatch -10 / gap -1 / gap-open %v", len(a), len(b), variant, open)})
+			}
+		}
+	}
+	// (2a) round 7: matrices defined over ALL 256x256 byte pairs that are not Levenshtein (case-insensitive
+	// substitutions, one symbol with cheaper indels), zero gap-open: the optimum under THAT matrix
+	if prop == "C09" || prop == "C08" {
+		for variant := 0; variant < 2; variant++ {
+			m := make(align.SubstitutionMatrix, 1<<16)
+			fold := func(x byte) byte {
+				if x >= 'a' && x <= 'z' {
+					return x - 32
+				}
+				return x
+			}
+			for i := 0; i < 256; i++ {
+				for j := 0; j < 256; j++ {
+					v := -1.0
+					if i == j || (variant == 0 && fold(byte(i)) == fold(byte(j))) {
+						v = 0
+					}
+					m[[2]byte{byte(i), byte(j)}] = v
+				}
+			}
+			if variant == 1 {
+				m[[2]byte{' ', align.Gap}], m[[2]byte{align.Gap, ' '}] = -0.5, -0.5
+			}
+			for i := 0; i < c.n(4); i++ {
+				a := c.bytesFrom([]byte("Kitten sat ON the Mat"), 6+c.rng.Intn(12))
+				b := append([]byte(nil), a...)
+				for j := range b {
+					switch c.rng.Intn(5) {
+					case 0:
+						b[j] ^= 0x20 // flips the case of a letter (and maps ' ' to 0x00)
+					case 1:
+						b[j] = ' '
+					}
+				}
+				if len(b) > 3 {
+					b = append(b[:2], b[3:]...)
+				}
+				var st []align.Step
+				var sc float64
+				res := safe(func() string { st, sc = align.Global(a, b, m); return "" })
+				opt := gotoh(m, a, b, false)
+				oracle := ""
+				if res == "PANIC" {
+					oracle = "Global panicked with a matrix over all byte pairs"
+				} else if rs, ai, bi, ok := rescore(m, a, b, st); !ok || ai != len(a) || bi != len(b) || rs != sc {
+					oracle = "Global (matrix over all byte pairs): steps do not re-score to the returned score"
+				} else if sc != opt {
+					oracle = fmt.Sprintf("Global with a zero-gap-open matrix over all 65536 byte pairs (not Levenshtein: %s) returns %v on %q / %q, an alignment scoring %v exists", []string{"case-insensitive substitutions", "cheaper indels of ' '"}[variant], sc, a, b, opt)
+				}
+				var lsc float64
+				res = safe(func() string { _, _, _, lsc = align.Local(a, b, m); return "" })
+				if lopt := gotoh(m, a, b, true); oracle == "" && (res == "PANIC" || lsc != lopt) {
+					oracle = fmt.Sprintf("Local with a zero-gap-open matrix over all byte pairs returns %v, optimum %v", lsc, lopt)
+				}
+				c.add(Case{Kind: "full-matrix-not-levenshtein", Nontrivial: true, Oracle: oracle, Note: fmt.Sprintf("align.Global/Local a=%q b=%q with a 65536-entry matrix (variant %d)", a, b, variant)})
+			}
+		}
 	}
 	// (2) sequences that use (almost) every byte value, with Levenshtein and a match/mismatch matrix over all bytes
 	if prop != "C10" {
